@@ -87,12 +87,52 @@ fn cmd_io(m: &HashMap<String, String>) -> i32 {
     let mut violation: Option<(String, i64, io::IoPlan, io::Violation)> = None;
     let mut total_violations = 0usize;
 
+    if let Some(path) = m.get("write-crash-replay") {
+        // the driver saw this very command die from a signal while executing the chunk that ends with
+        // plan `crash-index` of batch `crash-source` (<out>.cur): the replay file re-executes the shard up to there
+        let source = m.get("crash-source").cloned().unwrap_or_else(|| "sweep".into());
+        let idx = geti(m, "crash-index", 0) as usize;
+        let plan = if source == "sweep" { io_gen::sweep(sweep_values).0[idx].clone() } else { io_run::seeded_plan(seed, idx) };
+        let v = io::Violation {
+            invariant: io_run::CRASH_INVARIANT.into(),
+            step: 0,
+            ty: plan.records.first().map(|r| r.ty).unwrap_or(model::Ty::Fr),
+            c: plan.records.first().map(|r| r.c).unwrap_or(false),
+            expected: "every serialize/deserialize call returns and the process survives".into(),
+            observed: format!("the process was killed by signal {} while executing the chunk of plans ending here", m.get("crash-signal").cloned().unwrap_or_default()),
+            phase: "serialize",
+        };
+        let mut rj = io_run::replay_json(&property, seed, idx as i64, &source, &plan, &plan, &v, &[]);
+        let (sh, of) = shard.unwrap_or((0, 1));
+        rj.put(
+            "prelude",
+            J::obj()
+                .set("source", J::s(&source))
+                .set("from", J::u(0))
+                .set("upto", J::u(idx))
+                .set("values_per_type", J::u(sweep_values))
+                .set("shard", J::u(sh))
+                .set("of", J::u(of))
+                .set("after_sweep", J::Bool(source == "search" && do_sweep)),
+        );
+        if let Err(e) = std::fs::write(path, rj.pretty()) {
+            harness_error(&format!("cannot write {}: {}", path, e));
+        }
+        return 0;
+    }
+    let marker = |batch: &str| {
+        if shard.is_some() && out != "/dev/stdout" {
+            *io_run::CUR_MARKER.lock().unwrap() = Some((format!("{}.cur", out), batch.to_string()));
+        }
+    };
+
     // ---- systematic sweep
     let mut sweep_j = J::obj();
     if do_sweep {
         let ts = Instant::now();
         let (plans, dims) = io_gen::sweep(sweep_values);
         let n = plans.len();
+        marker("sweep");
         let b = io_run::run_batch_sharded(n, workers, None, &known, shard, |i| plans[i].clone());
         hash_dump.push((b.all_hashes.clone(), b.nontrivial_hashes.clone()));
         let mut dj = J::obj();
@@ -123,6 +163,7 @@ fn cmd_io(m: &HashMap<String, String>) -> i32 {
     // ---- seeded search
     let ts = Instant::now();
     let deadline = if secs > 0 { Some(Instant::now() + Duration::from_secs(secs)) } else { None };
+    marker("search");
     let b = io_run::run_batch_sharded(runs, workers, deadline, &known, shard, |i| io_run::seeded_plan(seed, i));
     hash_dump.push((b.all_hashes.clone(), b.nontrivial_hashes.clone()));
     let done = b.digests.len();
@@ -272,6 +313,34 @@ fn cmd_replay(m: &HashMap<String, String>) -> i32 {
     let engine = j.get("engine").and_then(|e| e.as_str()).unwrap_or("");
     let property = j.get("property").and_then(|e| e.as_str()).unwrap_or("?").to_string();
     match engine {
+        "io" if j.get("violation").and_then(|v| v.get("invariant")).and_then(|x| x.as_str()) == Some(io_run::CRASH_INVARIANT) && std::env::var("PP_SIM_CRASH_CHILD").is_err() => {
+            // the recorded violation is the death of the process: re-execute in a child and look at how it ends
+            use std::os::unix::process::ExitStatusExt;
+            let exe = std::env::current_exe().unwrap();
+            match std::process::Command::new(&exe).arg("replay").arg(&path).arg("--quiet").env("PP_SIM_CRASH_CHILD", "1").status() {
+                Ok(s) if s.signal().is_some() => {
+                    if !quiet {
+                        println!("violated: {}: the process executing the plans was killed by signal {}", io_run::CRASH_INVARIANT, s.signal().unwrap());
+                        println!("VIOLATION property={} replay={}", property, path);
+                    }
+                    1
+                }
+                Ok(s) if s.code() == Some(1) || s.code() == Some(3) => {
+                    if !quiet {
+                        println!("a different violation occurred (recorded: the process was killed by a signal)");
+                        println!("VIOLATION property={} replay={}", property, path);
+                    }
+                    3
+                }
+                Ok(s) if s.code() == Some(0) => {
+                    if !quiet {
+                        println!("replay of {}: no violation on this tree", path);
+                    }
+                    0
+                }
+                other => harness_error(&format!("replay child of {} ended unexpectedly: {:?}", path, other)),
+            }
+        }
         "io" => match io_run::replay_file(&path) {
             Ok((v, want, log)) => {
                 if !quiet {
